@@ -142,7 +142,15 @@ func c17RunCase(c c17Case, idx int, w *c17World, dir string) *c17Bad {
 		r, wr, _ := os.Pipe()
 		os.Stdin = r
 		answer := map[string]string{"y": "y\n", "n": "n\n", "a": "all\n", "dy": "d\nyes\n", "dn": "details\nno\n"}[c.Answer]
-		wr.WriteString("bogus answer\n" + answer)
+		// lines that are not one of the offered answers (spec: NonAnswers) are asked again, they decide nothing: the
+		// empty line (RETURN), blanks, abbreviations and other spellings of an answer, text containing one
+		non := []string{"\n", "   \n", "ye\n", "al\n", "det\n", "Y\n", "YES\n", "yes please\n", "bogus answer\n", "no!\n", "\t\n"}
+		pre := ""
+		pick := int(vSeed()%1000) + idx*7
+		for k := 0; k < 1+pick%3; k++ {
+			pre += non[(pick/3+k*5)%len(non)]
+		}
+		wr.WriteString(pre + answer)
 		wr.Close()
 		c17Silence(func() { kc.promptAddHosts(pending) })
 		os.Stdin = oldStdin
